@@ -35,12 +35,15 @@ CONSTANTS Dev_h12,     \* TRUE = the repaired defect: R<=4 file key derived from
           Dev_h13,     \* TRUE = the repaired defect: the dictionary of a stream is not walked
           Dev_t127,    \* TRUE = the repaired defect: R>=5 /U and /O are computed from the untruncated password, authentication truncates to 127 bytes
           Dev_mdict,   \* TRUE = the repaired defect: the Metadata exemption also skips non-stream dictionaries typed /Metadata
+          Dev_osrep,   \* TRUE = a seeded defect (never in the code): Decrypt's re-expansion of object streams REPLACES live objects
           Dev_dparr    \* TRUE = the repaired defect: a Crypt override given in the array form of DecodeParms is ignored
 
 -----------------------------------------------------------------------------
 (* Payload algebra *)
 
-Plain(pid, n) == [pid |-> pid, n0 |-> n, base |-> "P", gl |-> 0, layers |-> <<>>]
+\* ed: how often the item was edited since the run began (the plaintext an item has to come back to is the
+\* one it had when it was encrypted); base "O": the old copy of an edited item kept inside an object stream.
+Plain(pid, n) == [pid |-> pid, n0 |-> n, ed |-> 0, base |-> "P", gl |-> 0, layers |-> <<>>]
 
 IsAes(m) == m \in {"AES128", "AES256"}
 
@@ -99,8 +102,23 @@ Dec(m, k, pl) ==
 (*   nodp  : /Filter has Crypt, no (usable) DecodeParms                     *)
 (*   arr   : /DecodeParms [ << /Name /n >> ... ] (array form)               *)
 (* objs is a function from 1..N (position in object-id order) to objects.   *)
+(* typ also "ObjStm": an object stream container that the loader left in the *)
+(* document next to the objects unpacked from it.  Every stream has a field *)
+(* mem; for a container it is the ghost fact of what its content holds:     *)
+(* <<[pos, obj]>> = the member at position pos as it was stored (its live    *)
+(* copy is objs[pos]); <<>> for all other streams.                          *)
 
 NoCrypt == [f |-> "none", n |-> ""]
+
+\* cross-reference bookkeeping: kept in a loaded Document, never written by save
+Bookkeeping == {"XRef", "ObjStm"}
+
+\* containers are given with the positions of their members; the ghost copies are the live objects at that time
+AttachMembers(objs) ==
+    [i \in DOMAIN objs |->
+        IF objs[i].k = "stream"
+        THEN [objs[i] EXCEPT !.mem = [x \in DOMAIN objs[i].mem |-> [pos |-> objs[i].mem[x], obj |-> objs[objs[i].mem[x]]]]]
+        ELSE objs[i]]
 
 \* crypt filter table: sequence of <<name, method>>
 CfMethod(cf, name) ==
@@ -114,7 +132,8 @@ CfMethod(cf, name) ==
 (*   kind "str" | "stream"; insd: inside a stream's dictionary; otyp: /Type  *)
 (*   class of the enclosing top-level STREAM ("-" otherwise); inmd: some     *)
 (*   enclosing non-stream dictionary is typed /Metadata; len: plaintext      *)
-(*   length; eq: equals its plaintext now; present: still there.             *)
+(*   length; eq: equals its plaintext now; present: still there; osm: the    *)
+(*   object is a member of an object stream container held by the document.  *)
 
 IsoSubject(cfg, it) ==
     IF it.otyp = "XRef" THEN "no"
@@ -149,7 +168,7 @@ HiddenFails(cfg, items) ==
     {HiddenClass(cfg, items[i]) : i \in {x \in 1..Len(items) : MustHide(cfg, items[x]) /\ items[x].present /\ items[x].eq}}
 
 \* objects that save never writes (cross-reference bookkeeping, C01) are not demanded back from a file
-Demanded(it, viaFile) == ~(viaFile /\ it.otyp = "XRef")
+Demanded(it, viaFile) == ~(viaFile /\ it.otyp \in Bookkeeping)
 
 AllEq(items, viaFile) ==
     \A i \in 1..Len(items) : Demanded(items[i], viaFile) => items[i].present /\ items[i].eq
@@ -195,8 +214,13 @@ Resync(ev, viaFile) == IF ~ev.tenc /\ AllEq(ev.items, viaFile) THEN "plain" ELSE
 
 \* content: the tag for "some item is not restored" (a narrow class where the call belongs to one)
 RestoredTags(cfg, ev, viaFile, content) ==
+    LET bad == {i \in 1..Len(ev.items) : Demanded(ev.items[i], viaFile) /\ ~(ev.items[i].present /\ ev.items[i].eq)} IN
     (IF ev.tenc \/ ev.nobj # cfg.nobj0 THEN {"restored.encdict"} ELSE {})
-    \cup (IF ~AllEq(ev.items, viaFile) THEN {content} ELSE {})
+    \cup (IF bad = {} THEN {}
+          \* only copies held by object stream containers came back, everything else is fine: its own class
+          ELSE IF (\A i \in bad : ev.items[i].osm) /\ (\E i \in 1..Len(ev.items) : ~ev.items[i].osm /\ ev.items[i].len > 0 /\ ev.items[i].otyp \notin Bookkeeping)
+          THEN {"restored.objstm.member"}
+          ELSE {content})
 
 JudgeEncrypt(cfg, j, ev) ==
     IF j.mem # "plain" THEN Vd(TRUE, {"ok-unjudged"}, [j EXCEPT !.mem = IF ev.same THEN j.mem ELSE "lost"])
@@ -272,6 +296,9 @@ Judge(cfg, j, ev) ==
       [] ev.call = "Save"      -> JudgeSave(cfg, j, ev)
       [] ev.call = "Load"      -> JudgeLoad(cfg, j, ev)
       [] ev.call = "MakeState" -> IF ev.res = "Ok" /\ ev.same THEN Vd(TRUE, {"ok"}, j) ELSE Vd(FALSE, {"makestate.err"}, j)
+      \* an edit of the unencrypted document by the caller: the edited document is what has to come back from now on
+      [] ev.call = "Edit"      -> IF j.mem = "plain" /\ ev.res = "Ok" /\ ~ev.tenc /\ AllEq(ev.items, j.via) THEN Vd(TRUE, {"ok-edit"}, j)
+                                  ELSE Vd(TRUE, {"ok-unjudged"}, [j EXCEPT !.mem = IF ev.same THEN j.mem ELSE "lost"])
       [] OTHER                 -> Vd(FALSE, {"unknown.call"}, j)
 
 J0 == [mem |-> "plain", disk |-> "none", via |-> FALSE]
@@ -389,9 +416,43 @@ StepDecrypt(cfg, s, pw) ==
                       IF a.err # "" \/ i = s.tenc THEN [v |-> Append(a.v, s.objs[i]), err |-> a.err]
                       ELSE LET r == WalkD(ds, i, s.objs[i]) IN [v |-> Append(a.v, r.o), err |-> r.err]
              r == F[n]
+             \* "Add the objects from the object streams now that they have been decrypted": every container whose
+             \* content came out readable is parsed again and its members are merged into the objects with
+             \* entry(id).or_insert(member): a live object is NEVER replaced (all members are live here, objects are
+             \* never deleted in this model, so the merge changes nothing unless the seeded defect Dev_osrep is on).
+             ghosts == UNION {{r.v[i].mem[x] : x \in DOMAIN r.v[i].mem} :
+                              i \in {x \in 1..n : r.v[x].k = "stream" /\ r.v[x].typ = "ObjStm" /\ IsPlain(r.v[x].pl)}}
+             merged == [i \in 1..n |->
+                          IF Dev_osrep /\ \E g \in ghosts : g.pos = i THEN (CHOOSE g \in ghosts : g.pos = i).obj ELSE r.v[i]]
          IN IF r.err # "" THEN [s EXCEPT !.objs = r.v, !.res = Err(r.err)]
-            ELSE [s EXCEPT !.objs = [i \in 1..(n - 1) |-> IF i < s.tenc THEN r.v[i] ELSE r.v[i + 1]],
+            ELSE [s EXCEPT !.objs = [i \in 1..(n - 1) |-> IF i < s.tenc THEN merged[i] ELSE merged[i + 1]],
                            !.tenc = 0, !.enc = NoEnc, !.res = Ok]
+
+\* The caller edits the unencrypted document: every string of the object at position pos (and its content, if it is a
+\* stream) gets a new value, 3 bytes longer.  The copy a container holds of the object is the old one from then on.
+ChangePl(how, pl) ==
+    IF how = "edit" THEN [pl EXCEPT !.ed = @ + 1, !.n0 = @ + 3, !.base = "P", !.gl = 0, !.layers = <<>>]
+    ELSE [pl EXCEPT !.base = "O"]
+
+RECURSIVE MapPl(_, _)
+MapPl(how, o) ==
+    CASE o.k = "str"    -> [o EXCEPT !.pl = ChangePl(how, @)]
+      [] o.k \in {"arr", "dict"} -> [o EXCEPT !.v = [i \in DOMAIN @ |-> MapPl(how, @[i])]]
+      [] o.k = "stream" -> [o EXCEPT !.pl = ChangePl(how, @), !.d = [i \in DOMAIN @ |-> MapPl(how, @[i])]]
+      [] OTHER          -> o
+
+Editable(s, pos) ==
+    /\ s.tenc = 0 /\ pos \in 1..Len(s.objs)
+    /\ s.objs[pos].k \in {"str", "arr", "dict", "stream"}
+    /\ s.objs[pos].k = "stream" => s.objs[pos].typ \notin Bookkeeping
+
+StepEdit(cfg, s, pos) ==
+    [s EXCEPT !.res = Ok,
+              !.objs = [i \in DOMAIN s.objs |->
+                          IF i = pos THEN MapPl("edit", s.objs[i])
+                          ELSE IF s.objs[i].k = "stream" /\ s.objs[i].mem # <<>>
+                          THEN [s.objs[i] EXCEPT !.mem = [x \in DOMAIN @ |-> IF @[x].pos = pos THEN [@[x] EXCEPT !.obj = MapPl("stale", @)] ELSE @[x]]]
+                          ELSE s.objs[i]]]
 
 StepAuth(cfg, s, call, pw) ==
     IF s.tenc = 0 THEN [s EXCEPT !.res = Err("NotEncrypted")]
@@ -416,11 +477,13 @@ Step(cfg, s, c) ==
       [] c.call \in {"AuthUser", "AuthOwner", "Auth"} -> StepAuth(cfg, s, c.call, c.rel)
       [] c.call = "Save"      -> StepSave(cfg, s)
       [] c.call = "Load"      -> StepLoad(cfg, s)
+      [] c.call = "Edit"      -> StepEdit(cfg, s, c.pos)
 
 \* which calls the drivers issue in which state (Encrypt needs a state, Load a file)
 Callable(s, c) ==
     CASE c.call = "Encrypt" -> s.st # NoSt
       [] c.call = "Load"    -> s.disk # NoDisk
+      [] c.call = "Edit"    -> Editable(s, c.pos)
       [] OTHER              -> TRUE
 
 -----------------------------------------------------------------------------
@@ -428,25 +491,32 @@ Callable(s, c) ==
 (* harness logs it (objects in id order; depth first; a stream's content     *)
 (* before the entries of its dictionary).                                    *)
 
-Item(kind, insd, otyp, inmd, crypt, pl) ==
-    [kind |-> kind, insd |-> insd, otyp |-> otyp, inmd |-> inmd, crypt |-> crypt, len |-> pl.n0,
+Item(kind, insd, otyp, inmd, osm, crypt, pl) ==
+    [kind |-> kind, insd |-> insd, otyp |-> otyp, inmd |-> inmd, osm |-> osm, crypt |-> crypt, len |-> pl.n0,
      eq |-> IsPlain(pl), present |-> TRUE]
 
-RECURSIVE ItemsOf(_, _, _, _)
-ItemsSeq(s, insd, otyp, inmd) ==
-    LET F[i \in 0..Len(s)] == IF i = 0 THEN <<>> ELSE F[i - 1] \o ItemsOf(s[i], insd, otyp, inmd) IN F[Len(s)]
+RECURSIVE ItemsOf(_, _, _, _, _)
+ItemsSeq(s, insd, otyp, inmd, osm) ==
+    LET F[i \in 0..Len(s)] == IF i = 0 THEN <<>> ELSE F[i - 1] \o ItemsOf(s[i], insd, otyp, inmd, osm) IN F[Len(s)]
 
-ItemsOf(o, insd, otyp, inmd) ==
-    CASE o.k = "str"    -> <<Item("str", insd, otyp, inmd, NoCrypt, o.pl)>>
-      [] o.k = "arr"    -> ItemsSeq(o.v, insd, otyp, inmd)
-      [] o.k = "dict"   -> ItemsSeq(o.v, insd, otyp, inmd \/ o.typ = "Metadata")
-      [] o.k = "stream" -> <<Item("stream", FALSE, o.typ, FALSE, o.crypt, o.pl)>> \o ItemsSeq(o.d, TRUE, o.typ, FALSE)
+ItemsOf(o, insd, otyp, inmd, osm) ==
+    CASE o.k = "str"    -> <<Item("str", insd, otyp, inmd, osm, NoCrypt, o.pl)>>
+      [] o.k = "arr"    -> ItemsSeq(o.v, insd, otyp, inmd, osm)
+      [] o.k = "dict"   -> ItemsSeq(o.v, insd, otyp, inmd \/ o.typ = "Metadata", osm)
+      [] o.k = "stream" -> <<Item("stream", FALSE, o.typ, FALSE, osm, o.crypt, o.pl)>> \o ItemsSeq(o.d, TRUE, o.typ, FALSE, osm)
       [] OTHER          -> <<>>
 
-Items(objs) == ItemsSeq(objs, FALSE, "-", FALSE)
+\* positions of the objects some container of the document holds a copy of
+MemberPos(objs) ==
+    UNION {{objs[i].mem[x].pos : x \in DOMAIN objs[i].mem} : i \in {x \in 1..Len(objs) : objs[x].k = "stream"}}
 
-\* objects typed /XRef are cross-reference bookkeeping (never written by save): not counted
-NObj(objs) == Cardinality({i \in 1..Len(objs) : ~(objs[i].k \in {"stream", "dict"} /\ objs[i].typ = "XRef")})
+Items(objs) ==
+    LET mp == MemberPos(objs)
+        F[i \in 0..Len(objs)] == IF i = 0 THEN <<>> ELSE F[i - 1] \o ItemsOf(objs[i], FALSE, "-", FALSE, i \in mp)
+    IN F[Len(objs)]
+
+\* bookkeeping objects (typed /XRef, /ObjStm; never written by save) are not counted
+NObj(objs) == Cardinality({i \in 1..Len(objs) : ~(objs[i].k \in {"stream", "dict"} /\ objs[i].typ \in Bookkeeping)})
 
 \* the observation record of a call that led from s to t
 Observe(s, t, c) ==
